@@ -113,87 +113,10 @@ theorem checkCycle_accepts_ranked (adj : Name → List Name) (verts : List Name)
 
 /-! ### the caller's project -/
 
-/-- the case in which `newGraph` writes to the caller's project: a service that depends on itself and, optionally,
-on something that is not an enabled service -/
-def Quirk (en : List Name) (s : Svc) : Prop :=
-  (∃ d ∈ s.deps, d.name = s.name) ∧ (∃ d ∈ s.deps, en.contains d.name = false ∧ d.required = false)
-
-theorem scanDeps_del (en dis : List Name) (self : Name) :
-    ∀ (l : List Dep) (es : List Name) (del : Bool), (scanDeps en dis self l es del).2.2 = true →
-      del = true ∨ ∃ d ∈ l, en.contains d.name = false ∧ d.required = false := by
-  intro l
-  induction l with
-  | nil => intro es del h; exact .inl h
-  | cons d rest ih =>
-    intro es del h
-    simp only [scanDeps] at h
-    split at h
-    · rcases ih es del h with h1 | ⟨x, hx, hp⟩
-      · exact .inl h1
-      · exact .inr ⟨x, List.mem_cons_of_mem _ hx, hp⟩
-    · split at h
-      · rcases ih _ del h with h1 | ⟨x, hx, hp⟩
-        · exact .inl h1
-        · exact .inr ⟨x, List.mem_cons_of_mem _ hx, hp⟩
-      · rename_i hen
-        split at h
-        · exact .inl h
-        · rename_i hreq
-          exact .inr ⟨d, List.mem_cons_self .., by simpa using hen, by simpa using hreq⟩
-
-theorem depsAfter_same (en dis : List Name) (s : Svc) (hq : ¬ Quirk en s) (es0 : List Name) :
-    depsAfter s.name s.deps (scanDeps en dis s.name s.deps es0 false).2.2 = s.deps := by
-  unfold depsAfter
-  split
-  · rename_i hdel
-    rcases scanDeps_del en dis s.name s.deps es0 false hdel with h | hopt
-    · cases h
-    · apply List.filter_eq_self.mpr
-      intro d hd
-      have : d.name ≠ s.name := fun e => hq ⟨⟨d, hd, e⟩, hopt⟩
-      simpa using this
-  · rfl
-
-theorem build_after (en dis : List Name) :
-    ∀ (l : List Svc) (adj : List (Name × List Name)) (done : List Svc), (∀ s ∈ l, ¬ Quirk en s) →
-      (build en dis l adj done).2.2 = done ++ l := by
-  intro l
-  induction l with
-  | nil => intro adj done _; simp [build]
-  | cons s rest ih =>
-    intro adj done hq
-    have hs := depsAfter_same en dis s (hq s (List.mem_cons_self ..)) []
-    have hsame : (⟨s.name, s.deps⟩ : Svc) = s := by cases s; rfl
-    simp only [build]
-    rcases hsc : scanDeps en dis s.name s.deps [] false with ⟨e, es, del⟩
-    rw [hsc] at hs
-    simp only at hs
-    cases e with
-    | none =>
-      simp only
-      rw [ih _ _ (fun x hx => hq x (List.mem_cons_of_mem _ hx)), hs, hsame]
-      simp
-    | some e =>
-      simp only
-      rw [hs, hsame]
-
-theorem changedOf_self (l : List Svc) : changedOf l l = [] := by
-  induction l with
-  | nil => rfl
-  | cons a r ih =>
-    simp only [changedOf, List.zip_cons_cons, List.filterMap_cons, beq_self_eq_true, if_true] at ih ⊢
-    exact ih
-
-/-- **project unmodified (partial)**: unless some service depends on itself *and* optionally on a service that is not
-enabled, building the graph leaves every `depends_on` of the caller's project as it was — whatever the outcome -/
-theorem project_unmodified_partial (p : Proj) (hq : ∀ s ∈ p.services, ¬ Quirk (p.services.map (·.name)) s) :
-    (run p).changed = [] := by
-  have h := build_after (p.services.map (·.name)) p.disabled p.services [] [] hq
+/-- **project unmodified**: building the graph leaves the caller's project as it was — whatever the outcome
+(`newGraph` has no write since `fix:` 3143716; before, see `Neg/C13.lean`) -/
+theorem project_unmodified_full (p : Proj) : (run p).changed = [] := by
   simp only [run]
-  generalize build (p.services.map (·.name)) p.disabled p.services [] [] = r at h ⊢
-  obtain ⟨e, adj, after⟩ := r
-  simp only [List.nil_append] at h
-  subst h
-  cases e <;> exact changedOf_self _
+  split <;> rfl
 
 end CV.DepGraph
